@@ -9,7 +9,8 @@
 //!
 //! B1 payment; B2 multi-asset payment with a native-policy mint (Mary+); B3
 //! spend of two Plutus-locked entries with collateral, redeemers, datum and
-//! script-integrity hash (Alonzo+); B3m = B3 with map-form redeemers (Conway).
+//! script-integrity hash (Alonzo+); B3m = B3 with map-form redeemers (Conway);
+//! B4 = B3 locked by a PlutusV2 script at a slot of the PlutusV2 epochs (Babbage).
 
 use crate::txlab::*;
 
@@ -93,6 +94,28 @@ pub fn b3(era: Era) -> Case {
     Case { era, base: "B3-plutus".into(), devs: vec![], tx, env }
 }
 
+pub fn plutus_v2_addr() -> Addr {
+    Addr::script(plutus_hash(2, &plutus_script()))
+}
+
+/// B4: the B3 spend with the inputs locked by a Plutus**V2** script and no V1 script in
+/// the witness set, at a mainnet slot of the PlutusV2 epochs (Babbage only: the Babbage
+/// validator takes languages and language views from network and slot).
+pub fn b4(era: Era) -> Case {
+    let mut c = b3(era);
+    c.base = "B4-plutus-v2".into();
+    c.env.slot = 90_000_000;
+    c.tx.ttl = Some(c.env.slot + 100);
+    for u in c.env.utxo.iter_mut() {
+        if u.at == U10 || u.at == U11 {
+            u.out = Out::new(era, plutus_v2_addr(), 3_000_000).with_datum(Datum::Hash(datum()));
+        }
+    }
+    c.tx.wits.plutus_v1 = None;
+    c.tx.wits.plutus_v2 = Some(vec![plutus_script()]);
+    c
+}
+
 /// All post-Byron bases.
 pub fn bases() -> Vec<Case> {
     let mut v = vec![];
@@ -103,6 +126,9 @@ pub fn bases() -> Vec<Case> {
         }
         if era.plutus() {
             v.push(b3(era));
+        }
+        if era == Era::Babbage {
+            v.push(b4(era));
         }
         if era == Era::Conway {
             // the same spend with the Conway map encoding of the redeemers
